@@ -20,6 +20,25 @@ N_PATCHES = {"NTERM", "NEUTRAL-NTERM", "5TERM"}
 C_PATCHES = {"CTERM", "NEUTRAL-CTERM", "3TERM"}
 
 
+TERMINI_SHAPES = {
+    "A": ["ALA"], "AA": ["ALA", "GLY"], "AAA": ["SER", "ALA", "GLY"], "P..": ["PRO", "ALA", "ALA"],
+    "AAW": ["ALA", "GLY", "WAT"], "AAL": ["ALA", "GLY", "LIG"], "AAWW": ["ALA", "GLY", "WAT", "WAT"],
+    "NN": ["DA", "DT"], "NNN": ["DA", "DC", "DG"], "N": ["DA"], "RR": ["RA", "RU"], "NNW": ["DA", "DT", "WAT"],
+    "W": ["WAT"], "WW": ["WAT", "WAT"], "AAX": ["ALA", "GLY", "NME?"],
+}
+
+
+def build_chain(prog, model, names):
+    chain = []
+    for n in names:
+        if n in ("LIG", "NME?"):
+            chain.append({"__class__": prog.cls("residue.py", "Residue"), "name": n.rstrip("?"), "map": {},
+                          "patches": [], "__ref__": None, "__removed__": []})
+        else:
+            chain.append(model.residue(n))
+    return chain
+
+
 def check(prog, rep):
     from . import shared
     t = Tables(prog.root)
@@ -94,26 +113,12 @@ def check(prog, rep):
                   floor=40)
     fi = prog.func("biomolecule.py", "Biomolecule.assign_termini")
     where = f"pdb2pqr/biomolecule.py:{fi.node.lineno} (Biomolecule.assign_termini)"
-    shapes = {
-        "A": ["ALA"], "AA": ["ALA", "GLY"], "AAA": ["SER", "ALA", "GLY"], "P..": ["PRO", "ALA", "ALA"],
-        "AAW": ["ALA", "GLY", "WAT"], "AAL": ["ALA", "GLY", "LIG"], "AAWW": ["ALA", "GLY", "WAT", "WAT"],
-        "NN": ["DA", "DT"], "NNN": ["DA", "DC", "DG"], "N": ["DA"], "RR": ["RA", "RU"], "NNW": ["DA", "DT", "WAT"],
-        "W": ["WAT"], "WW": ["WAT", "WAT"], "AAX": ["ALA", "GLY", "NME?"],
-    }
+    shapes = TERMINI_SHAPES
     for sname, names in shapes.items():
         for nn in (False, True):
             for nc in (False, True):
                 for dist, cyc in ((3.8, False), (1.33, True)):
-                    chain = []
-                    for n in names:
-                        if n == "LIG":
-                            chain.append({"__class__": prog.cls("residue.py", "Residue"), "name": "LIG", "map": {},
-                                          "patches": [], "__ref__": None, "__removed__": []})
-                        elif n == "NME?":
-                            chain.append({"__class__": prog.cls("residue.py", "Residue"), "name": "NME", "map": {},
-                                          "patches": [], "__ref__": None, "__removed__": []})
-                        else:
-                            chain.append(model.residue(n))
+                    chain = build_chain(prog, model, names)
                     it = model.assign_termini(chain, neutraln=nn, neutralc=nc, dist=dist)
                     first = chain[0]
                     polymer = [r for r in chain if r["name"] not in ("WAT", "LIG", "NME")]
